@@ -1,4 +1,150 @@
-(* PC02.v — placeholder while the proofs are being built *)
-From SV Require Import Assorter.
-Theorem C02_placeholder : True. Proof. exact I. Qed.
-Print Assumptions C02_placeholder.
+(* PC02.v — property C02: assorter means exceed 1/2 exactly when the reported winners really won; assorter
+   ranges; the margin derived from a tally equals 2 * mean - 1 over the same cards.
+   Only statements (proved in Assorter_proofs.v), Print Assumptions, and non-vacuity examples.
+   All statements are for card lists of any length, any marks (every Python truthiness encoding), blank ballots,
+   ballots lacking the contest, any candidate / winner / loser lists.
+   `mean` is the model of Assorter.mean: NaN on an empty (filtered) list, so "mean > 1/2" is
+   xlt (Fin (1#2)) (mean ...) = true; with no card both sides of each equivalence are false. *)
+From SV Require Import Assorter Assorter_proofs.
+From Coq Require Import Permutation String.
+Open Scope Q_scope.
+
+(* plurality and approval, k reported winners W, reported losers L, with or without the style filter *)
+Theorem C02_plurality_iff : forall (use_style : bool) (con : contest_id) (cs : list card) (W L : list cand),
+  (forall w l, In w W -> In l L -> xlt (Fin (1 # 2)) (mean use_style con (assort_pl con w l) cs) = true)
+  <-> (forall w l, In w W -> In l L -> (votes con w cs > votes con l cs)%Z).
+Proof. exact plurality_iff. Qed.
+Print Assumptions C02_plurality_iff.
+
+(* super-majority with required share f > 0: valid = exactly one truthy mark among the listed candidates *)
+Theorem C02_supermajority_iff : forall (use_style : bool) (con : contest_id) (f : Q) (w : cand) (cands : list cand)
+                                       (cs : list card),
+  0 < f ->
+  (xlt (Fin (1 # 2)) (mean use_style con (assort_sm con f w cands) cs) = true
+   <-> f * inject_Z (valid_votes con cands cs) < inject_Z (valid_votes_for con cands w cs)).
+Proof. exact supermajority_iff. Qed.
+Print Assumptions C02_supermajority_iff.
+
+(* every assorter value lies in [0, upper_bound] (plurality/approval: 1; super-majority: 1/(2f), 0 < f <= 1) *)
+Theorem C02_range : forall (con : contest_id) (c : card),
+  (forall w l, 0 <= assort_pl con w l c /\ assort_pl con w l c <= ub_pl) /\
+  (forall f w cands, 0 < f -> f <= 1 -> 0 <= assort_sm con f w cands c /\ assort_sm con f w cands c <= ub_sm f).
+Proof. intros con c. split; [intros; apply range_pl|intros; now apply range_sm]. Qed.
+Print Assumptions C02_range.
+
+(* Contest.tally followed by find_margin_from_tally, with Contest.cards = the number of cards the mean is taken
+   over, gives 2 * mean - 1.  Guards: Python dict keys distinct; candidate names truthy; no card dropped by the
+   rule check (vacuous when enforce_rules = False). *)
+Theorem C02_margin_tally_plurality :
+  forall (sc : scf) (enforce : bool) (n_winners : Z) (con : contest_id) (cs : list card) (w l : cand)
+         (use_style : bool) (f : Q) (candidates : list cand) (arg : option tally_dict),
+  sc = PLURALITY \/ sc = APPROVAL ->
+  Forall wf_card cs -> w <> 0%Z -> l <> 0%Z -> pl_cards_ok enforce n_winners con cs = true ->
+  style_filter use_style con cs <> [] ->
+  let T := mktally (tally_contest enforce n_winners con cs) true in
+  arg = None \/ arg = Some T ->
+  exists m mg,
+    mean use_style con (assort_pl con w l) cs = Fin m /\
+    find_margin_from_tally arg (Some T) sc w l (Z.of_nat (List.length (style_filter use_style con cs))) f candidates
+      = Val (Fin mg) /\
+    mg == 2 * m - 1.
+Proof. exact margin_tally_plurality. Qed.
+Print Assumptions C02_margin_tally_plurality.
+
+(* super-majority (the repaired formula q (p/f - 1), p = winner's share of the valid votes).  Guards: as above,
+   the contest's candidate list is the assorter's list up to order, the tally and the assorter agree on which
+   ballots are valid (sm_cards_ok: always true when every ballot has at most one mark and n_winners >= 1, and when
+   overvotes among listed candidates are dropped by the rule check), and there is at least one valid vote
+   (with none the code computes 0/0). *)
+Theorem C02_margin_tally_supermajority :
+  forall (enforce : bool) (n_winners : Z) (con : contest_id) (cs : list card) (w : cand) (losers candidates : list cand)
+         (use_style : bool) (f : Q) (arg : option tally_dict),
+  Forall wf_card cs -> Forall (fun x => x <> 0%Z) candidates -> In w candidates ->
+  Permutation candidates (sm_cands w losers) -> w <> NO_CANDIDATE ->
+  sm_cards_ok enforce n_winners con (sm_cands w losers) cs = true ->
+  0 < f -> (0 < valid_votes con (sm_cands w losers) cs)%Z ->
+  style_filter use_style con cs <> [] ->
+  let T := mktally (tally_contest enforce n_winners con cs) true in
+  arg = None \/ arg = Some T ->
+  exists m mg,
+    mean use_style con (assort_sm con f w (sm_cands w losers)) cs = Fin m /\
+    find_margin_from_tally arg (Some T) SUPERMAJORITY w ALL_OTHERS
+      (Z.of_nat (List.length (style_filter use_style con cs))) f candidates = Val (Fin mg) /\
+    mg == 2 * m - 1.
+Proof. exact margin_tally_supermajority. Qed.
+Print Assumptions C02_margin_tally_supermajority.
+
+(* ------------------------------------------------------------------ non-vacuity *)
+(* contest 1, candidates 1 2 3; every mark encoding, a blank ballot, a ballot lacking the contest, a write-in (7),
+   an explicit falsy entry, and (ex_over) an overvote *)
+Definition ex_cards : list card :=
+  [ mkcard [(1, [(1, MBool true)])]%Z false;
+    mkcard [(1, [(2, MStr ""); (1, MInt 5)])]%Z false;
+    mkcard [(1, [(2, MStr "marked"); (3, MNone)])]%Z false;
+    mkcard [(9, [(1, MBool true)])]%Z false;
+    mkcard [(1, [])]%Z true;
+    mkcard [(1, [(1, MFloat 1); (3, MInt 0)]); (9, [(2, MInt 1)])]%Z false;
+    mkcard [(1, [(7, MInt 1)])]%Z false ].
+Definition ex_over : list card := mkcard [(1, [(1, MBool true); (2, MInt 1)])]%Z false :: ex_cards.
+
+Ltac nodup := simpl; repeat constructor; simpl; intuition lia.
+Ltac wfcard :=
+  split; [nodup | intros con vs Hin; simpl in Hin;
+                  repeat (destruct Hin as [Hin | Hin]; [inversion Hin; subst; nodup|]); contradiction].
+Lemma ex_over_wf : Forall wf_card ex_over.
+Proof. repeat (constructor; [wfcard|]). constructor. Qed.
+Lemma ex_cards_wf : Forall wf_card ex_cards.
+Proof. pose proof ex_over_wf as H. inversion H; assumption. Qed.
+
+(* C02_plurality_iff: both sides hold for W = [1], L = [2;3] (3, 1, 0 votes) and both fail for W = [2] *)
+Example C02_plurality_iff_nonvacuous :
+  (votes 1 1 ex_cards = 3 /\ votes 1 2 ex_cards = 1 /\ votes 1 3 ex_cards = 0)%Z /\
+  forallb (fun l => xlt (Fin (1 # 2)) (mean true 1%Z (assort_pl 1%Z 1%Z l) ex_cards)) [2; 3]%Z = true /\
+  xlt (Fin (1 # 2)) (mean false 1%Z (assort_pl 1%Z 2%Z 1%Z) ex_cards) = false.
+Proof. vm_compute. repeat split. Qed.
+
+(* C02_supermajority_iff: with the overvote, 4 valid ballots among candidates 2 3 1, 3 of them for candidate 1:
+   the mean exceeds 1/2 for f = 1/2 and not for f = 4/5; the hypothesis 0 < f holds for both *)
+Example C02_supermajority_iff_nonvacuous :
+  (valid_votes 1 (sm_cands 1 [2; 3]) ex_over = 4 /\ valid_votes_for 1 (sm_cands 1 [2; 3]) 1 ex_over = 3)%Z /\
+  xlt (Fin (1 # 2)) (mean true 1%Z (assort_sm 1%Z (1 # 2) 1%Z (sm_cands 1 [2; 3])%Z) ex_over) = true /\
+  xlt (Fin (1 # 2)) (mean true 1%Z (assort_sm 1%Z (4 # 5) 1%Z (sm_cands 1 [2; 3])%Z) ex_over) = false /\
+  0 < 1 # 2 /\ 0 < 4 # 5.
+Proof. vm_compute. repeat split. Qed.
+
+(* C02_range: the values 0, 1/2, 1 and 0, 1/2, 1/(2f) all occur *)
+Example C02_range_nonvacuous :
+  map (assort_pl 1%Z 1%Z 2%Z) ex_over = [1 # 2; 2 # 2; 2 # 2; 0 # 2; 1 # 2; 1 # 2; 2 # 2; 1 # 2] /\
+  forallb (fun c => Qle_bool 0 (assort_sm 1%Z (2 # 3) 1%Z [2; 3; 1]%Z c)
+                    && Qle_bool (assort_sm 1%Z (2 # 3) 1%Z [2; 3; 1]%Z c) (ub_sm (2 # 3))) ex_over = true /\
+  existsb (fun c => Qeq_bool (assort_sm 1%Z (2 # 3) 1%Z [2; 3; 1]%Z c) (ub_sm (2 # 3))) ex_over = true /\
+  existsb (fun c => Qeq_bool (assort_sm 1%Z (2 # 3) 1%Z [2; 3; 1]%Z c) 0) ex_over = true.
+Proof. vm_compute. repeat split. Qed.
+
+Open Scope Z_scope.
+(* C02_margin_tally_plurality: all hypotheses hold on ex_cards with rules enforced (no overvote), and on ex_over
+   with rules not enforced (with rules enforced the guard fails there: the overvote is dropped by the tally) *)
+Example C02_margin_tally_plurality_nonvacuous :
+  Forall wf_card ex_cards /\ pl_cards_ok true 1 1 ex_cards = true /\ style_filter true 1 ex_cards <> [] /\
+  Forall wf_card ex_over /\ pl_cards_ok false 1 1 ex_over = true /\ pl_cards_ok true 1 1 ex_over = false /\
+  tally_contest true 1 1 ex_cards = [(1, 3); (2, 1); (3, 0); (7, 1)].
+Proof.
+  split; [exact ex_cards_wf|]. split; [reflexivity|]. split; [discriminate|]. split; [exact ex_over_wf|].
+  repeat split.
+Qed.
+
+(* C02_margin_tally_supermajority: all hypotheses hold on ex_over with rules enforced and one winner: the overvote
+   is dropped by the tally and invalid for the assorter; the write-in ballot is tallied but has no listed mark.
+   With rules not enforced the guard fails (the tally would count the overvote as two valid votes). *)
+Example C02_margin_tally_supermajority_nonvacuous :
+  Forall wf_card ex_over /\ Forall (fun x => x <> 0) [1; 2; 3] /\ In 1 [1; 2; 3] /\
+  Permutation [1; 2; 3] (sm_cands 1 [2; 3]) /\ 1 <> NO_CANDIDATE /\
+  sm_cards_ok true 1 1 (sm_cands 1 [2; 3]) ex_over = true /\ (0 < 2 # 3)%Q /\
+  0 < valid_votes 1 (sm_cands 1 [2; 3]) ex_over /\ style_filter true 1 ex_over <> [] /\
+  sm_cards_ok false 1 1 (sm_cands 1 [2; 3]) ex_over = false.
+Proof.
+  split; [exact ex_over_wf|]. split; [repeat constructor; lia|]. split; [simpl; auto|].
+  split; [unfold sm_cands; simpl; apply Permutation_cons_append|].
+  split; [unfold NO_CANDIDATE; lia|]. split; [reflexivity|]. split; [reflexivity|].
+  split; [reflexivity|]. split; [discriminate|reflexivity].
+Qed.
